@@ -103,4 +103,21 @@ def run(repo='/repo', tier='quick'):
     from . import coupdate
     coupdate.run(db, res, 'C15.e', [('htp_param_t', 'value', b, 3, 'a parameter record is filled completely where it is made') for b in ('name', 'source', 'parser_id')],
                  'fields that change together: wherever a parameter record gets its value it also gets its name, its source and the id of the parser that made it (query string, urlencoded body, multipart)')
+    # ---- C15.f a decoder that is told its context uses it
+    res.rule('C15.f', 'a decoder that is told its context uses it: in every function with a parameter of type enum htp_decoder_ctx_t, each subscript of decoder_cfgs[] is that parameter (never a constant context copied from the path twin); the setters\' defaults loop, which walks all contexts with its own index, is the one other accepted form')
+    nctx = 0
+    for n_, f_ in sorted(db.fn.items()):
+        if not f_.blocks:
+            continue
+        cps = [p_['name'] for p_ in f_.params if 'htp_decoder_ctx_t' in (p_.get('t') or '')]
+        if not cps:
+            continue
+        for b_, i_, st_ in f_.stmts():
+            for x_ in nodes(st_, lambda y: y.get('k') == 'index' and P.member_field(y.get('base')) == 'decoder_cfgs'):
+                nctx += 1
+                ix = strip(x_['idx'])
+                ok = ix is not None and ix.get('k') == 'var' and (ix['name'] in cps or ix.get('decl') == 'local')
+                res.check(ok, 'C15.f', '%s:decoder_cfgs[%s]' % (n_, P.K(x_['idx'])), 'subscripted with the context parameter (or the defaults loop index)',
+                          '%s is given its decoder context as a parameter but reads decoder_cfgs[%s]: the options of another context (the path decoder\'s) are applied to this one' % (n_, P.K(x_['idx'])), x_['loc'])
+    res.floor('C15.f', 'decoder_cfgs subscripts in functions that are given a context', nctx, 30)
     return res
